@@ -614,7 +614,8 @@ class Oracles:
         for tm in must:
             got = self.probe_state(pm, tm)
             if got != "U":
-                w.fail({"C13"}, "flush/finished-task-still-remembered", f"{pm.name}#{tm.tid} cancel(id) says {got}")
+                # (C03: the three counters then sum to more than "tasks created minus tasks forgotten")
+                w.fail({"C13", "C03"}, "flush/finished-task-still-remembered", f"{pm.name}#{tm.tid} cancel(id) says {got}")
             else:
                 tm.forgotten = True
         self.resolve_forgotten(pm)
@@ -697,6 +698,9 @@ class Oracles:
             raised = e
         finally:
             pm.close_active -= 1  # type: ignore[attr-defined]
+            for r in pm.reqs:
+                if r.spawner is not None and r.spawner.done():
+                    r.meta_exc_seen = True  # type: ignore[attr-defined]   (... including those that ended while it waited)
         if w.teardown:
             return
         self.forget_epoch += 1
